@@ -7,10 +7,11 @@ from . import mech
 
 PROPS = {
     'C02': {
-        'e3': ['compose_paths', 'path_optimizer'],
+        'e3_always': ['opt_levels'],
+        'e3': ['compose_paths', 'path_optimizer', 'opt_levels'],
         'units': ['paths'],
         'decided': 'path composition used by the cl23 optimiser and NodePath (compose_paths) equals "follow p then q" for all paths >= 1',
-        'not_covered': ['CSE', 'de-inlining', 'constant folding', 'fe_opt', 'brief_path_selection_single call-site precondition', 'whole-pipeline equality of builds'],
+        'not_covered': ['CSE, de-inlining, constant folding, fe_opt, strategy optimiser: bounded stand-in only (E3: 9 programs x argument sets x cl21/cl22/cl23 x -O off/on must agree on the returned value)', 'brief_path_selection_single call-site precondition', 'whole-pipeline equality of builds for all programs'],
     },
     'C03': {
         'e3': ['compose_paths', 'path_optimizer'],
@@ -67,14 +68,18 @@ PROPS = {
         'not_covered': ['recurse_dependencies / process_pp_form reaching every include and embed-file form: bounded stand-in only (E3 on a temporary directory tree: include, embed-file bin/hex, shadowed search path; cl21 and cl23)', 'gather_dependencies filter', 'pseudo-file branch of read_new_file'],
     },
     'C13': {
+        'e3_always': ['symbols'],
+        'e3': ['symbols'],
         'units': ['symbols'],
         'decided': 'path_to_function / path_to_function_inner: a returned path addresses, in the given program, a subtree whose tree hash equals the symbol-table key (for every program and hash); rewrite_in_program builds exactly (a (a (q . path/2) env) (c env 1))',
-        'not_covered': ['add_defun records hash(code) -> name and the argument list (HashMap-heavy, not under contract)', 'later passes leave quoted bodies alone', 'every reachable non-inline function has an entry', 'extracted code computes what the source function computes'],
+        'not_covered': ['add_defun records hash(code) -> name and the argument list: bounded stand-in only (E3: 5 programs incl. two functions with identical code)', 'later passes leave quoted bodies alone', 'every reachable non-inline function has an entry', 'extracted code computes what the source function computes'],
     },
     'C01': {
+        'e3_always': ['source_meaning'],
+        'e3': ['source_meaning'],
         'units': ['envaddr'],
         'decided': 'environment addressing only: create_name_lookup_ returns a path that selects, from ANY argument tree, exactly the value the parameter pattern binds the name to under consensus destructuring (first match, left before right, (@ n sub) captures), and fails only when the pattern does not mention the name; build_tree / compute_code_shape / compute_env_shape lay the helper names out left to right, each once, with the arguments on the right',
-        'not_covered': ['desugaring of let / assign / lambda', 'inlining', 'renaming', 'macro expansion', 'finalize_env_', 'start_codegen / codegen as a whole', 'that compiled code computes what the source means'],
+        'not_covered': ['desugaring of let / assign / lambda', 'inlining', 'renaming', 'macro expansion', 'finalize_env_', 'start_codegen / codegen as a whole', 'that compiled code computes what the source means: bounded stand-in only (E3: 15 hand-evaluated programs x cl21/cl23)'],
     },
     'C09': {
         'units': ['printer', 'casts'],
@@ -102,5 +107,12 @@ PROPS = {
         'e3': ['entry_points'],
         'decided': 'the option derivation of the library entry point (compile_clvm_text_maybe_opt; Python, wasm, file-to-file) and of the command-line tool path (RunAndCompileInputData::new + compile_modern; run, cldb), extracted as expressions from the real text, are the same function of (do_optimize, stepping) and equal the rule optimize = do_optimize || stepping > 22, frontend_opt = stepping == 22; both hand do_optimize to the classic post-optimiser with the same options; the library wrapper requests optimisation; with compile_file and the post-optimiser as uninterpreted functions of (options, text) the emitted programs are equal (lemma)',
         'not_covered': ['launch_tool / cldb argument plumbing', 'py and wasm wrappers', 'the classic (no sigil) branch', 'determinism of compile_file (C05)', 'byte equality of real outputs: bounded stand-in only (E3: 3 programs x cl21/22/23 x optimize on/off)'],
+    },
+    'C16': {
+        'units': ['evalbind'],
+        'e3_always': ['repl'],
+        'e3': ['repl'],
+        'decided': 'the evaluator\'s destructuring of binding patterns (compute_paths_of_destructure, used for let / assign patterns by the REPL, the partial evaluator and the cl22 frontend optimiser): every name is bound to the f/r chain that follows the consensus path of its position in the pattern (least significant bit first), for patterns of any shape',
+        'not_covered': ['create_argument_captures / build_argument_captures (function-call argument binding; HashMap- and BodyForm-heavy)', 'substitution, folding and lambda application in shrink_bodyform_visited', 'REPL state', 'agreement REPL vs compiled program as a whole: bounded stand-in only (E3: 10 sessions)'],
     },
 }
